@@ -35,6 +35,8 @@ type Scenario struct {
 	PlainHeaders     bool         `json:"plain_headers,omitempty"`      // no padding / extension / CSRC in the written packets
 	NoPauseHandler   bool         `json:"no_pause_handler,omitempty"`   // the server's handler has no OnPause: PAUSE is answered 501
 	BackChannel      bool         `json:"back_channel,omitempty"`       // the stream has one more media, a back channel (client → server inside a PLAY session)
+	Bursts           [][2]int     `json:"bursts,omitempty"`             // [start, length): writes made back to back, without any pacing (several packets of a format are queued at once)
+	PubNoSAVP        bool         `json:"pub_no_savp,omitempty"`        // rtsps record over TCP: the announced medias keep profile AVP (plain RTP inside TLS); default: SAVP, SRTP inside TLS
 	NoPlayHandler    bool         `json:"no_play_handler,omitempty"`    // … and no OnPlay either (publish-only server)
 	PubSteps         []Step       `json:"pub_steps,omitempty"`          // relay: what the publisher does before write At: pause-refused
 	PubRecordRefused int          `json:"pub_record_refused,omitempty"` // relay: so many RECORD requests are refused before the accepted one
@@ -52,6 +54,7 @@ type ReaderSpec struct {
 	Chans       []int  `json:"chans,omitempty"`        // raw: first interleaved id requested per SETUP (-1: none)
 	KeepaliveUs int    `json:"keepalive_us,omitempty"` // raw: an OPTIONS / GET_PARAMETER every so many µs while the stream flows
 	Back        bool   `json:"back,omitempty"`         // the reader also sets the back channel up and writes to it (plan op `back`: a burst of 25 packets)
+	BackBurst   int    `json:"back_burst,omitempty"`   // packets per `back` burst (default 25), written back to back
 }
 
 // Step is one scheduled operation: before write number At.
